@@ -56,5 +56,14 @@ func aliases(s []byte, t []byte, lo, hi int) bool {
 	return &s[0] == &t[lo]
 }
 
+// bufValid(b): b is a well-formed gopacket serialize buffer (0 <= start <= len(data) <= cap(data), ...).
+func bufValid(b any) bool { return b != nil }
+
+// bufSmall(b): bufValid and, additionally, capacity and growth increments below 2^30 bytes.
+func bufSmall(b any) bool { return b != nil }
+
+// bufBytes(b): the bytes currently in the buffer, b.Bytes().
+func bufBytes(b interface{ Bytes() []byte }) []byte { return b.Bytes() }
+
 // dyntype(x, "T") : the dynamic type of interface x is T
 func dyntype(x any, name string) bool { return true }
